@@ -394,7 +394,7 @@ fn main() {
     let mut ev = Evidence::new(
         &args,
         "inputs: every char-boundary prefix of a fixed set of seed files + proptest-selected mutations of all repository .incn files \
-         (14 mutation families) + the committed fz_frontend corpus; each input is pushed through lex/parse/typecheck/format/emit-rust \
+         (15 mutation families) + the directed escape leg (every literal kind x escape introducer x 0-3 following scalars x 3 placements) + the committed fz_frontend corpus; each input is pushed through lex/parse/typecheck/format/emit-rust \
          and every diagnostic through format_error/render_miette/LSP conversion. Non-trivial: the input passes the lexer (reaches the \
          parser) or yields a diagnostic with a non-empty span. Distinct = hash of the input text.",
     );
@@ -504,7 +504,7 @@ fn main() {
     };
 
     // ---- leg A: every char-boundary prefix of a fixed set of seeds (exhaustive within each file)
-    let n_prefix_seeds = args.tier.pick(12usize, usize::MAX);
+    let n_prefix_seeds = args.tier.pick(10usize, usize::MAX);
     let mut order: Vec<usize> = (0..seeds.len()).filter(|&i| seeds[i].1.len() <= args.tier.pick(2_600, MAX_INPUT_BYTES)).collect();
     order.sort_by_key(|&i| util::hash_str(&seeds[i].0));
     order.truncate(n_prefix_seeds);
@@ -526,9 +526,27 @@ fn main() {
         eprintln!("trace: prefix leg done, {} cases", t_prefix);
     }
 
+    // ---- leg A2: directed escape leg, exhaustive within its bounds (literal kind x introducer x following scalars x
+    //      placement), plus the same scalars behind every backslash of every seed file
+    let esc = front::escape_cases(args.tier == Tier::Thorough);
+    run.ev.set("escape_leg_inputs", json!(esc.len()));
+    for chunk in esc.chunks(20_000) {
+        run.batch(chunk.to_vec());
+    }
+    let mut spl: Vec<(&'static str, String)> = Vec::new();
+    for (_, text) in &seeds {
+        if text.len() <= MAX_INPUT_BYTES - 8 {
+            spl.extend(front::backslash_splices(text));
+        }
+    }
+    run.ev.set("seed_backslash_splice_inputs", json!(spl.len()));
+    for chunk in spl.chunks(20_000) {
+        run.batch(chunk.to_vec());
+    }
+
     // ---- leg B: mutations
-    let n_mut = args.flag("mutations").and_then(|v| v.parse().ok()).unwrap_or(args.tier.pick(30_000usize, 2_000_000usize));
-    let strat = (any::<u16>(), 0u8..14, any::<[u16; 6]>());
+    let n_mut = args.flag("mutations").and_then(|v| v.parse().ok()).unwrap_or(args.tier.pick(20_000usize, 2_000_000usize));
+    let strat = (any::<u16>(), 0u8..15, any::<[u16; 6]>());
     let mut runner = vcore::gen::runner(args.subseed(111));
     let mut done = 0usize;
     while done < n_mut {
